@@ -13,7 +13,7 @@ RULE = ("Each case = options (proxyauth on/off, socks5_auth hook verdict, connec
         "OpenConnection failing) + a client byte stream + a segmentation. Streams: 70% built from RFC 1928/1929 "
         "message encoders over token dictionaries (versions, method lists incl. empty/255-long, commands, reserved byte, "
         "ATYP 1/3/4/other, domain names incl. empty/255-long/non-ASCII/IP-literal look-alikes, trailing data), of which a "
-        "quarter is truncated at a random point; 20% the same with byte-level mutations (flip/insert/delete/duplicate); "
+        "quarter is truncated at a random point or exactly at / one byte around a message boundary; 20% the same with byte-level mutations (flip/insert/delete/duplicate); "
         "10% raw random or HTTP-looking bytes. Segmentations: whole, byte-by-byte, random cut points, with occasional empty "
         "segments. Thorough adds, for 60 base streams, every single cut point and, for streams <= 11 bytes, every "
         "composition. Every case is additionally run unsegmented so the oracle can compare outcomes. Non-trivial = at "
@@ -98,15 +98,20 @@ def gen_stream(rng, pa):
     if r < 0.10:
         return rng.choice([HTTP, rng.bytes(rng.randint(0, 30)), b"\x05", b"", b"\x05\x00", b"\x04\x01\x00\x50\x7f\x00\x00\x01\x00"])
     clean = rng.chance(0.6)
-    s = enc_greeting(rng, pa, clean)
+    parts = [enc_greeting(rng, pa, clean)]
     if pa if clean or rng.chance(0.93) else not pa:
-        s += enc_auth(rng, clean)
-    s += enc_request(rng, clean)
-    s += rng.choice(TRAIL) if rng.chance(0.7) else rng.bytes(rng.randint(1, 24))
+        parts.append(enc_auth(rng, clean))
+    parts.append(enc_request(rng, clean))
+    parts.append(rng.choice(TRAIL) if rng.chance(0.7) else rng.bytes(rng.randint(1, 24)))
+    s = b"".join(parts)
     if r < 0.28:
         s = mutate(rng, s)
-    elif r < 0.42:
+    elif r < 0.36:
         s = s[:rng.below(len(s) + 1)]
+    elif r < 0.46:
+        # cut at (or one byte around) a message boundary: the decisions that wait for "enough bytes"
+        cut = len(b"".join(parts[:rng.randint(1, len(parts) - 1)])) + rng.choice([0, 0, 0, -1, 1])
+        s = s[:max(cut, 0)]
     return s[:700]
 
 
